@@ -236,6 +236,79 @@ theorem C16_bridge_attach_guard_witness :
     holdsA (aObs (closeSeq true (run (aProg true false) [0, 0, 0, 1] (aInit [.a1, .attT])).sh)) = false := by
   decide
 
+/-! ## Client mapping handler: traffic totals of finished tunnels -/
+
+/-- The pending totals are claimed (`Swap`) before `TrackTraffic` is called; the adds are the rollback. -/
+theorem skel_mapping_reportStats :
+    Skel.Mapping_reportStats = ["BytesSent.Swap", "BytesReceived.Swap", "client.TrackTraffic",
+      "BytesSent.Add", "BytesReceived.Add"] := by decide
+
+/-- **Every interleaving** of any number of `reportStats` callers — ticks of `reportStatsLoop`, the
+final report of the handler's close cleanup — each with a succeeding or a failing `TrackTraffic`
+(`fails`), on any accumulated totals `a`, `b`: when all have returned, what was handed to successful
+`TrackTraffic` calls plus what is still pending equals `a` / `b` (each byte reported at most once,
+none lost), the pending counters are not negative, and with no failing call and at least one
+report nothing is pending (reported exactly once). -/
+theorem C16_client_report (a b : Nat) (fails : List Bool) (s : Schedule) :
+    holdsP a b fails (pObs (pFinal .swap a b fails s)) = true :=
+  holdsP_final a b fails s
+
+/-- The rejected "Load, TrackTraffic, subtract afterwards": the periodic report is inside
+`TrackTraffic` when the final report reads the same totals. -/
+theorem C16_client_report_loadSub_witness :
+    holdsP 1000 500 [false, false] (pObs (pFinal .loadSub 1000 500 [false, false] [0, 0, 1, 1, 1, 1, 0, 0])) = false := by
+  decide
+
+/-! ## ResourceManager.DisposeAll -/
+
+/-- **Any mix of `Register` and `DisposeAll` calls (on a manager that already holds `pre` resources),
+every interleaving**, followed by the last `DisposeAll`: every resource ever registered has been
+disposed — the totals show exactly once each — and the map is empty. -/
+theorem C16_resource_manager (pre : Nat) (pcs : List MPc) (h : ∀ p ∈ pcs, p = MPc.reg ∨ p = MPc.d1)
+    (s : Schedule) : holdsM2 (rmObs (mFinal pre pcs s)) = true :=
+  holdsM2_final pre pcs h s
+
+/-! ## Known finding: two bridges of one mapping -/
+
+/-- KNOWN FINDING (`K:crossbridge-lost-update`): the read-modify-write of the mapping's statistics
+spans two storage calls and `reportMu` is per bridge; when two bridges of the same mapping overlap
+between `GetPortMapping` and `UpdatePortMappingStats`, one delta is lost (reported zero times).
+`C16_report` covers one bridge; sequential reports of several bridges are fine (example below). -/
+theorem C16_crossbridge_asFound_witness :
+    holdsX [100, 7] (xFinal [100, 7] [0, 1, 0, 1]).sh = false := by decide
+
+/-! ## Later operations fail cleanly -/
+
+/-- **Any mix of closers, writers and readers of a table the cleanup does not take away, every
+interleaving, at every moment**: no operation panics and the table is still there. (The harness
+sweeps every plain-argument exported method of SessionManager, memory storage, StreamProcessor,
+Bridge, Tunnel and TunnelManager after and during Close: `api`.) -/
+theorem C16_later_ops_clean (pcs : List KPc) (s : Schedule) :
+    holdsK (run (kProg false) s (kInit pcs)).sh.panics = true ∧
+    (run (kProg false) s (kInit pcs)).sh.tableSet = true := by
+  have : ∀ (s : Schedule) (c : Cfg KShared KPc), c.sh.panics = 0 ∧ c.sh.tableSet = true →
+      (run (kProg false) s c).sh.panics = 0 ∧ (run (kProg false) s c).sh.tableSet = true := by
+    intro s
+    induction s with
+    | nil => intro c h; exact h
+    | cons j s ih =>
+      intro c h
+      apply ih
+      cases hl : c.ths[j]? with
+      | none => rw [stepAt_none _ _ _ hl]; exact h
+      | some l =>
+        rw [stepAt_some _ c j l hl]
+        obtain ⟨h1, h2⟩ := h
+        cases l <;> simp only [kProg, kStep, h2, if_true] <;> (try split) <;> simp_all
+  have h := this s (kInit pcs) ⟨rfl, rfl⟩
+  exact ⟨by simp [holdsK, h.1], h.2⟩
+
+/-- The rejected cleanup that sets the table to nil while writers still assign into it
+(`SessionManager.onClose` + `MarkTunnelClosed`; the memory storage before fix 252d971): Close, then
+a write. -/
+theorem C16_later_ops_nil_table_witness :
+    holdsK (run (kProg true) [0, 1] (kInit [.close, .write])).sh.panics = false := by decide
+
 /-! ## Traffic report -/
 
 /-- **Totals reported exactly once, every schedule.** Any list of rounds (bytes counted, then any
@@ -354,6 +427,7 @@ example : holdsX [100, 7] (xFinal [100, 7] [0, 0, 1, 1]).sh = true := by decide
 example : rmObs (mFinal 2 [.d1, .reg, .d1, .reg] [0, 1, 2, 0, 3, 0, 2]) = ⟨4, 4, 0, 0⟩ := by decide +kernel
 example : ((rRounds .repaired rInit [⟨100, 7, 2, [0, 0, 0, 1], [0], []⟩, mkRound 1 1 1 []]).map rObs)
     = [⟨100, 7, 1, 100, 7⟩, ⟨101, 8, 2, 101, 8⟩] := by decide
+example : (run (kProg false) [0, 1, 2] (kInit [.close, .write, .read])).sh = ⟨true, true, 1, 0⟩ := by decide
 example : (bFinal 3 [0, 1, 2, 2, 1, 0]).sh.sc = 2 ∧ (bFinal 3 [0, 1, 2, 2, 1, 0]).sh.cleanups = 1 := by decide
 
 end Tunnox.C16
